@@ -232,13 +232,14 @@ pub fn run(ts: &Ts, tk: &Tokens, o: &Opts) -> Summary {
         queue.push_back(0);
     }
     let mut clone_ok = true;
+    let indep = o.observers.iter().any(|x| x == "indep");
     'outer: while let Some(ni) = queue.pop_front() {
         let s = nodes[ni as usize].state;
         let path = path_of(&nodes, ts, ni);
         let base = build(&path);
         let base_snap = base.g(0).snap();
         // observers at this product state
-        if !o.observers.is_empty() {
+        if o.observers.iter().any(|x| x != "indep") {
             observers::at_state(&base, &ts.states[s as usize], &path, o, &mut sum, &mut wfile, &mut next_trace_id);
         }
         for (ei, post) in &ts.out[s as usize] {
@@ -274,6 +275,31 @@ pub fn run(ts: &Ts, tk: &Tokens, o: &Opts) -> Summary {
             *sum.ops.entry(ev.raw["op"].as_str().unwrap_or("?").to_string()).or_default() += 1;
             let ret = w.exec(&ev.call);
             let expected = &ts.states[*post as usize];
+            if clone_ok && indep && base.g(0).snap() != base_snap {
+                // mutating the clone changed the original
+                *sum.observer_checks.entry("independence-broken".into()).or_default() += 1;
+                sum.observer_failures += 1;
+                if sum.witnesses.len() < o.max_witnesses {
+                    let mut calls = path.clone();
+                    calls.push(HCall { h: 0, call: Call::Clone { dst: 1 } });
+                    let mut c = ev.call.clone();
+                    c.h = 1;
+                    if !matches!(c.call, Call::Clone { .. } | Call::Reload { .. } | Call::Slice { .. }) {
+                        calls.push(c);
+                        let tid = next_trace_id;
+                        next_trace_id += 1;
+                        if let Some(f) = wfile.as_mut() {
+                            record_trace(f, tid, o, &labels, &calls);
+                        }
+                        sum.witnesses.push(json!({"t": tid, "sig": "independence", "n": o.n, "cap": o.cap,
+                            "calls": calls.iter().map(|c| c.to_json()).collect::<Vec<_>>()}));
+                    }
+                }
+                break 'outer;
+            }
+            if indep {
+                *sum.observer_checks.entry("independence".into()).or_default() += 1;
+            }
             let (d, snap_after): (Diff, Option<VerifSnapshot>) = if ret.is_panic() {
                 let mut d = Diff::default();
                 d.observable.insert("panic");
@@ -348,13 +374,14 @@ pub fn run(ts: &Ts, tk: &Tokens, o: &Opts) -> Summary {
                     *c += 1;
                     let mut calls = path.clone();
                     calls.push(ev.call.clone());
+                    let (calls, mirror) = mirrorize(&calls);
                     let tid = next_trace_id;
                     next_trace_id += 1;
                     let w = json!({"t": tid, "sig": sig, "n": o.n, "cap": o.cap,
-                        "calls": calls.iter().map(|c| c.to_json()).collect::<Vec<_>>(),
+                        "calls": calls.iter().zip(mirror.iter()).map(|(c, m)| { let mut j = c.to_json(); if *m { j["mirror"] = json!(true); } j }).collect::<Vec<_>>(),
                         "expected_post": expected.to_trace_json(), "expected_ret": ev.ret});
                     if let Some(f) = wfile.as_mut() {
-                        record_trace(f, tid, o, &labels, &calls);
+                        record_trace_m(f, tid, o, &labels, &calls, &mirror);
                     }
                     sum.witnesses.push(w);
                 }
@@ -419,4 +446,34 @@ pub fn summary_json(ts: &Ts, o: &Opts, s: &Summary) -> Value {
         "collecting_transitions_executed": s.collections, "ops": s.ops,
         "witnesses": s.witnesses, "samples": s.samples,
     })
+}
+
+/// A witness path that contains an in-place clone / save+load (handle 0 replaced by its copy) is judged
+/// side by side: up to the LAST such call everything runs on handle 0; the copy goes to handle 1; every
+/// later call runs on the original (0) and then, flagged `mirror`, on the copy (1).  A flaw of the copy
+/// shows as a difference between the two; a flaw elsewhere shows identically on both.
+pub fn mirrorize(calls: &[HCall]) -> (Vec<HCall>, Vec<bool>) {
+    let last = calls.iter().rposition(|c| matches!(c.call, Call::Clone { dst: 0 } | Call::Reload { dst: 0 }));
+    let Some(k) = last else { return (calls.to_vec(), vec![false; calls.len()]) };
+    let mut out = vec![];
+    let mut mir = vec![];
+    for c in &calls[..k] {
+        out.push(c.clone());
+        mir.push(false);
+    }
+    let is_reload = matches!(calls[k].call, Call::Reload { .. });
+    out.push(HCall { h: 0, call: if is_reload { Call::Reload { dst: 1 } } else { Call::Clone { dst: 1 } } });
+    mir.push(false);
+    for c in &calls[k + 1..] {
+        out.push(c.clone());
+        mir.push(false);
+        let mut c1 = c.clone();
+        c1.h = 1;
+        if let Call::Slice { dst, .. } = &mut c1.call {
+            *dst = 2;
+        }
+        out.push(c1);
+        mir.push(!(is_reload && matches!(c.call, Call::NextId)));
+    }
+    (out, mir)
 }
